@@ -158,6 +158,34 @@ def session_identity(ctx: Ctx, rule: str) -> None:
                len(cache) == 1 and ast.unparse(cache[0].value) == "{}", {}, "" if len(cache) == 1 else "the session cache changed")
 
 
+def worker_params_alias(ctx: Ctx, rule: str) -> None:
+    """The worker's connection parameters and the parameters its tests are composed from are ONE object: those of the worker's net."""
+    W = "cartgraph/worker.py:TestWorker"
+    bad = []
+    for prop, want in (("params", "self.net.params"), ("restrs", "self.net.restrs")):
+        f = ctx.repo.func(f"{W}.{prop}")
+        ctx.touch(f.ref)
+        rets = [r for r in ast.walk(f.node) if isinstance(r, ast.Return)]
+        if len(rets) != 1 or rets[0].value is None or ast.unparse(rets[0].value) != want:
+            bad.append(f"TestWorker.{prop} returns {[ast.unparse(r.value) if r.value else None for r in rets]} instead of {want}: slot customisation "
+                       "(overwrite_with_slot) and the nets_* parameters every test of that worker is parsed with no longer agree")
+    init = ctx.repo.func(f"{W}.__init__")
+    ctx.touch(init.ref)
+    p1 = init.params()[1]
+    nets = [s_ for s_ in ast.walk(init.node) if isinstance(s_, ast.Assign) and ast.unparse(s_.targets[0]) == "self.net"]
+    if len(nets) != 1 or ast.unparse(nets[0].value) != p1:
+        bad.append(f"the worker's net is no longer the net object it was constructed from: {[ast.unparse(n.value) for n in nets]}")
+    ow = ctx.repo.func(f"{W}.overwrite_with_slot")
+    ctx.touch(ow.ref)
+    keys = sorted(t.slice.value for s_ in ast.walk(ow.node) if isinstance(s_, ast.Assign) for t in s_.targets
+                  if isinstance(t, ast.Subscript) and ast.unparse(t.value) == "self.params" and isinstance(t.slice, ast.Constant))
+    want_keys = ["nets_gateway", "nets_host", "nets_shell_host", "nets_shell_port", "nets_spawner"]
+    if keys != want_keys:
+        bad.append(f"overwrite_with_slot writes {keys} (expected {want_keys}) through self.params")
+    ctx.record(rule, "PROV", f"{W}.params", "worker.params / worker.restrs ARE the net's (no copy): what overwrite_with_slot writes (gateway, host, spawner, shell host/port) is what "
+               "every test parsed for that net carries as nets_* and what pull_locations hands out as access parameters", not bad, {"slot_keys": keys}, "" if not bad else bad[0])
+
+
 def foreign_worker_rows(ctx: Ctx, rule: str) -> None:
     N.run_decision_table(ctx, rule + "r")
     N.clean_decision_table(ctx, rule + "c")
@@ -177,6 +205,10 @@ def run(ctx: Ctx) -> None:
     ctx.call(access_params_rule, "6")
     ctx.call(run_task_rule, "7")
     ctx.call(session_identity, "8")
+    ctx.call(worker_params_alias, "8p")
+    from . import c16 as C16
+
+    ctx.call(C16.graph_lookups, "10")
     from .c10 import replay_loading
 
     ctx.call(replay_loading, "9")
